@@ -1,4 +1,5 @@
 import gfapy
+import math
 import re
 
 def unsafe_decode(string):
@@ -11,9 +12,17 @@ def decode(string):
   validate_encoded(string)
   return float(string)
 
-def validate_decoded(integer):
-  pass
-  # always valid
+def validate_decoded(obj):
+  if isinstance(obj, int) or isinstance(obj, float):
+    if isinstance(obj, float) and not math.isfinite(obj):
+      raise gfapy.ValueError(
+        "{} cannot be represented by the datatype\n".format(repr(obj))+
+        "(the value must be finite)")
+  else:
+    raise gfapy.TypeError(
+      "the class {} is incompatible with the datatype\n"
+      .format(obj.__class__.__name__)+
+      "(accepted classes: str, int, float)")
 
 def validate_encoded(string):
   if not re.match(r"^[-+]?[0-9]*\.?[0-9]+([eE][-+]?[0-9]+)?\Z", string):
